@@ -77,8 +77,8 @@ CHECKS.update({
              "all 256 opcode bytes, byte pairs, all op pairs, bit-walking / boundary / opcode-carrying immediates with "
              "every truncation point and random sequences are pushed through from_bytes / to_bytes / Opcode::try_from / "
              "to_opcode of the real crates and each answer is validated by TLC.",
-        note="short::* constants are only exercised through the names the harness uses for ops; immediates are compared "
-             "as 8-byte strings against i64::to_be_bytes (std is trusted).",
+        note="immediates are compared as 8-byte strings against i64::to_be_bytes (std is trusted); the short names are checked "
+             "by compiling and running a generated program that names every short::* constant declared in asm.yml.",
         technique="TLA+ codec state machines model-checked with TLC + " + TRACEBC),
     "C14": dict(
         level="model_checking", design="6/C14",
